@@ -87,7 +87,7 @@ func MatchKey(pattern, key string) bool {
 }
 
 func init() {
-	lifeExpl := "Path-sensitive typestate/provenance abstract interpretation (engine LIFE) of Run with every in-package static callee inlined (runBatch, sequential/concurrent item loops, the submitted task closure, the per-item retry function), explored to a fixpoint under the four cases of the immutable batch configuration (stop|continue x sequential|concurrent). User callbacks are opaque events whose results are symbolic; every branch the collected facts do not decide is followed both ways, so every outcome script, budget N>=1 and cancellation point is covered by finitely many abstract states. Each obligation is a rule evaluated at a construct role on every abstract path reaching it."
+	lifeExpl := "Path-sensitive typestate/provenance abstract interpretation (engine LIFE) of Run with every in-package static callee inlined (runBatch, sequential/concurrent item loops, the submitted task closure, the per-item retry function), explored to a fixpoint once per cell of a case split over immutable inputs, every dimension an exhaustive partition: batch configuration (stop|continue x sequential|concurrent) x dynamic type of the node (*BatchNode | *BatchNodeBuilder | any other) x dynamic type of prep's result on the batch paths ([]Result | []any | any other) - 28 cells explored side by side; a cell only prunes the branches its assumption decides. User callbacks are opaque events whose results are symbolic; every branch the collected facts do not decide is followed both ways, so every outcome script, budget N>=1 and cancellation point is covered by finitely many abstract states. Each obligation is a rule evaluated at a construct role on every abstract path reaching it."
 	reg(&Prop{ID: "C01", Units: []string{"run", "adapters"}, Technique: "static analysis: path-sensitive typestate + value-provenance abstract interpretation over go/ssa",
 		Explanation: lifeExpl + " C01 decides: prep first/once with the run's own store; exec only after a successful prep or a failed exec, with prep's value; post at most once, only after the exec phase (attempt or fallback) is known to have succeeded, with (store, prep value, that result); returns are (post's action|default, nil) or (\"\", non-nil).",
 		CaseRule:    "an obligation instance is one (abstract path, call site) pair at which the rule was evaluated; distinct = distinct rule@construct keys with at least one instance",
@@ -97,34 +97,34 @@ func init() {
 			{"C01.R6@*:delegation", 10, "library phase methods forward positionally"}, {"C01.R7@*:implements-*", 18, "method-set table"}, {"C01.R7@*-resolution", 30, "promoted method resolution"}},
 		Assumptions: commonAssumptions})
 	reg(&Prop{ID: "C02", Units: []string{"run", "loops", "adapters", "config"}, Technique: "static analysis: scalar-evolution trip-count analysis + path-sensitive retry typestate over go/ssa",
-		Explanation: lifeExpl + " C02 decides: (R1, static arithmetic) every loop that directly contains an exec attempt has a unit-step attempt counter whose exit test, evaluated after attempt j, is equivalent to j < V for one symbolic V, and (R1, path-sensitive half) V is the node's GetMaxRetries() value, or the constant 1 for a node known not to expose retry settings; (R2) exactly one attempt per iteration; (R3) a further attempt only after a known-failed one, and a run fails with an exec error only after the budget test exhausted; (R4) the fallback is invoked at most once, only after exhaustion with the last attempt known failed, on the node being run, with (prep value, that last error), and is not skipped when the node may implement it. Same rules on the single-node path and on the per-item path.",
+		Explanation: lifeExpl + " C02 decides: (R1, static arithmetic) every loop that directly contains an exec attempt has a unit-step attempt counter whose exit test, evaluated after attempt j, is equivalent to j < V for one symbolic V, and (R1, path-sensitive half) V is the node's GetMaxRetries() value, or the constant 1 for a node known not to expose retry settings; (R2) exactly one attempt per iteration; (R3) a further attempt only after a known-failed one, and a run fails with an exec error only after the budget test exhausted; (R4) the fallback is invoked at most once, only after exhaustion with the last attempt known failed, on the node being run, with (prep value, that last error), and is not skipped when the node may implement it. Same rules on the single-node path and on the per-item path. (R6) every form of the budget setter (option, NodeBuilder, BatchNodeBuilder) stores its argument unconditionally and unchanged in the field GetMaxRetries returns.",
 		CaseRule:    "an obligation instance is one (abstract path, site) pair or one loop for the static arithmetic rule; distinct = distinct rule@construct keys",
 		Floors: []Floor{{"C02.R1@*:retry-loop", 2, "static trip-count obligations (single-node loop and per-item loop)"}, {"C02.R1@*:interface-shape", 3, "the node interfaces have their documented method sets"}, {"C02.R1@BaseNode.GetMaxRetries:identity", 1, "the budget getter returns the configured budget"}, {"C02.R1@single|*:budget-test", 1, "budget provenance, single"}, {"C02.R1@batch|*:budget-test", 1, "budget provenance, per item"},
-			{"C02.R3@single|*:cb:Exec", 1, "retry precondition"}, {"C02.R3@CustomNode.Exec:error-checked", 1, "function-style exec reports failures as failures"}, {"C02.R4@single|*:cb:ExecFallback", 1, "fallback, single"}, {"C02.R4@batch|*:cb:ExecFallback", 1, "fallback, per item"}, {"C02.R2@*:retry-loop-iteration", 2, "one attempt per iteration"}},
+			{"C02.R3@single|*:cb:Exec", 1, "retry precondition"}, {"C02.R3@CustomNode.Exec:error-checked", 1, "function-style exec reports failures as failures"}, {"C02.R4@single|*:cb:ExecFallback", 1, "fallback, single"}, {"C02.R4@batch|*:cb:ExecFallback", 1, "fallback, per item"}, {"C02.R2@*:retry-loop-iteration", 2, "one attempt per iteration"}, {"C02.R6@*WithMaxRetries:stores-argument", 3, "every form of the budget setter stores its argument"}},
 		Assumptions: append(append([]string{}, commonAssumptions...), "a budget that changes between two reads of GetMaxRetries() is outside the property (it is read once per run/item)")})
 	reg(&Prop{ID: "C20", Units: []string{"run", "config"}, Technique: "static analysis: path-sensitive wait-event typestate over go/ssa",
-		Explanation: lifeExpl + " C20 decides the structural cause of the timing statement: on every retry path a wait event (select on a timer channel created with the node's GetWait() value) lies between the failed attempt and the next one unless wait<=0 is established on that path; no wait precedes the first attempt or follows the last one (before fallback/post/return/next item); every wait is a select that also receives from ctx.Done(); time.Sleep and bare timer receives are not used. Measured durations are delegated to the time package's contract.",
+		Explanation: lifeExpl + " C20 decides the structural cause of the timing statement: on every retry path a wait event (select on a timer channel created with the node's GetWait() value) lies between the failed attempt and the next one unless wait<=0 is established on that path; no wait precedes the first attempt or follows the last one (before fallback/post/return/next item); every wait is a select that also receives from ctx.Done(); time.Sleep and bare timer receives are not used. Measured durations are delegated to the time package's contract. (R5) every form of the wait setter stores its argument unconditionally and unchanged in the field GetWait returns, whatever the rest of the configuration is at that moment.",
 		CaseRule:    "an obligation instance is one (abstract path, site) pair; distinct = distinct rule@construct keys",
-		Floors:      []Floor{{"C20.R1@single|*:cb:Exec", 1, "wait before retries, single"}, {"C20.R1@batch|*:cb:Exec", 1, "wait before retries, per item"}, {"C20.R4@*", 2, "interruptible wait selects"}, {"C20.R2@*", 2, "no wait before first attempt"}, {"C20.R3@*", 3, "no wait after last attempt"}},
+		Floors:      []Floor{{"C20.R1@single|*:cb:Exec", 1, "wait before retries, single"}, {"C20.R1@batch|*:cb:Exec", 1, "wait before retries, per item"}, {"C20.R4@*", 2, "interruptible wait selects"}, {"C20.R2@*", 2, "no wait before first attempt"}, {"C20.R3@*", 3, "no wait after last attempt"}, {"C20.R5@*WithWait:stores-argument", 3, "every form of the wait setter stores its argument unconditionally"}},
 		Assumptions: append(append([]string{}, commonAssumptions...), "elapsed time >= w is the contract of time.After/time.NewTimer; promptness after cancellation is the contract of select")})
 	batchExpl := lifeExpl + " On the batch paths the result list is abstracted per loop: for every loop that stores Result values through an index, the monitor records the indexed slice, the offset of the index from the loop's induction variable, whether every completed iteration stored its slot, how the loop was left (induction-variable test against the slice length, or early), and the provenance class of every stored value."
-	reg(&Prop{ID: "C06", Units: []string{"run"}, Technique: "static analysis: path-sensitive slot-coverage/provenance abstract interpretation over go/ssa (batch paths, task closure inlined)",
-		Explanation: batchExpl + " C06 decides: post is invoked once, after pool.Wait() has followed the last Submit; it receives the item list and a result list made with len(items); the item list is prep's []Result itself or an index-preserving copy of prep's list; every result store writes slot IV+c of the current iteration with a value derived from the exec phase of the item loaded from items[IV+c] in the same iteration/task (or an error); one submit / one exec chain per iteration; no append to the result list.",
+	reg(&Prop{ID: "C06", Units: []string{"run", "adapters"}, Technique: "static analysis: path-sensitive slot-coverage/provenance abstract interpretation over go/ssa (batch paths, task closure inlined)",
+		Explanation: batchExpl + " C06 decides: post is invoked once, after pool.Wait() has followed the last Submit; it receives the item list and a result list made with len(items); the item list is prep's []Result itself or an index-preserving copy of prep's list; every result store writes slot IV+c of the current iteration with a value derived from the exec phase of the item loaded from items[IV+c] in the same iteration/task (or an error); one submit / one exec chain per iteration; no append to the result list. (R8) the exec method of function-style nodes invokes the configured exec function exactly once on every path (an item is never passed over because of what it carries).",
 		CaseRule:    "an obligation instance is one (abstract path, site) pair; distinct = distinct rule@construct keys",
 		Floors: []Floor{{"C06.R1@batch|*:post", 1, "length agreement"}, {"C06.R2@batch|*:post", 1, "slot coverage and provenance at post"}, {"C06.R2@batch|*:item-exec", 1, "exec argument is items[i]"}, {"C06.R4@batch|*:post", 1, "wait before post"},
-			{"C06.R4@batch|*:pool-close", 1, "close after wait"}, {"C06.R6@batch|*:post", 1, "post arguments"}, {"C06.R7@batch|*:items", 1, "item list provenance"}, {"C06.R5@batch|*:post", 1, "one chain/submit per iteration"}},
+			{"C06.R4@batch|*:pool-close", 1, "close after wait"}, {"C06.R6@batch|*:post", 1, "post arguments"}, {"C06.R7@batch|*:items", 1, "item list provenance"}, {"C06.R5@batch|*:post", 1, "one chain/submit per iteration"}, {"C06.R8@*.Exec:calls-once", 2, "function-style exec runs the user's function for every item"}},
 		Assumptions: append(append([]string{}, commonAssumptions...), "concurrent writes to distinct slots do not race (Go memory model) and are visible after WaitGroup.Wait (C12 decides the pool's barrier)")})
-	reg(&Prop{ID: "C07", Units: []string{"run", "loops"}, Technique: "static analysis: path-sensitive per-item typestate + effect analysis over go/ssa",
-		Explanation: batchExpl + " C07 decides: in continue mode the item loop is left only through its index test against the list length (no break/return), every iteration/task runs exactly one exec chain unless it observed cancellation, the per-item chain obeys the retry/fallback rules of C02 (re-checked on the per-item function), the per-item path writes no memory shared between items other than its own result slot and boolean constants to the mutex-guarded stop flag, and the slot on failure holds the last attempt's (or the fallback's) error.",
+	reg(&Prop{ID: "C07", Units: []string{"run", "loops", "config", "adapters"}, Technique: "static analysis: path-sensitive per-item typestate + effect analysis over go/ssa",
+		Explanation: batchExpl + " C07 decides: in continue mode the item loop is left only through its index test against the list length (no break/return), every iteration/task runs exactly one exec chain unless it observed cancellation, the per-item chain obeys the retry/fallback rules of C02 (re-checked on the per-item function), the per-item path writes no memory shared between items other than its own result slot and boolean constants to the mutex-guarded stop flag, and the slot on failure holds the last attempt's (or the fallback's) error. (R6) the error-handling setters write exactly the mode field, with the constant chosen by their argument. (R7) the exec method of function-style nodes invokes the configured exec function exactly once on every path, whatever the item carries (an error item is still processed, retried and handed to the fallback).",
 		CaseRule:    "an obligation instance is one (abstract path, site) pair; distinct = distinct rule@construct keys",
 		Floors: []Floor{{"C07.R1@batch|*:post", 1, "no early exit in continue mode"}, {"C07.R2@batch|*:post", 1, "one chain per item"}, {"C07.R3@batch|*:cb:Exec", 1, "per-item retry rules"}, {"C07.R3@batch|*:cb:ExecFallback", 1, "per-item fallback rules"},
-			{"C07.R3@batch|*:budget-test", 1, "per-item budget provenance"}, {"C07.R4@batch|*:shared-write", 1, "effect set of the per-item path"}, {"C07.R5@batch|*:post", 1, "slot value provenance"}},
+			{"C07.R3@batch|*:budget-test", 1, "per-item budget provenance"}, {"C07.R4@batch|*:shared-write", 1, "effect set of the per-item path"}, {"C07.R5@batch|*:post", 1, "slot value provenance"}, {"C07.R6@*WithBatchErrorHandling:single-field", 3, "the mode setters write the mode"}, {"C07.R7@*.Exec:calls-once", 2, "function-style exec runs the user's function for every item"}},
 		Assumptions: commonAssumptions})
-	reg(&Prop{ID: "C09", Units: []string{"run"}, Technique: "static analysis: path-sensitive slot-coverage + lock-held typestate over go/ssa",
-		Explanation: batchExpl + " C09 decides: (R1) sequential stop mode: no item exec starts after an error outcome was stored; (R2) concurrent stop mode: each task reads the shared stop flag while holding the mutex and executes its item only when it read false, a failing task stores true while holding the mutex, the mutex is released on every task path; (R3) slot coverage: at post every slot of the result list was assigned on every path - the item loop ran to the end of the list, or the current slot was stored and a loop ran over results[i+1:] to its end storing an error result in every slot; (R4) every stored value is the item's own outcome or an error, never a success value for an item that did not run.",
+	reg(&Prop{ID: "C09", Units: []string{"run", "config", "pool"}, Technique: "static analysis: path-sensitive slot-coverage + lock-held typestate over go/ssa",
+		Explanation: batchExpl + " C09 decides: (R1) sequential stop mode: no item exec starts after an error outcome was stored; (R2) concurrent stop mode: each task reads the shared stop flag while holding the mutex and executes its item only when it read false, a failing task stores true while holding the mutex, the mutex is released on every task path; (R3) slot coverage: at post every slot of the result list was assigned on every path - the item loop ran to the end of the list, or the current slot was stored and a loop ran over results[i+1:] to its end storing an error result in every slot; (R4) every stored value is the item's own outcome or an error, never a success value for an item that did not run. (R5) the error-handling setters write exactly the mode field, with the constant chosen by their argument. (R6) Submit puts the task on the queue by one blocking send in the caller's goroutine before it returns (no select alternative, no goroutine), so with one worker items start in item order and nothing positioned after the first failure runs before it.",
 		CaseRule:    "an obligation instance is one (abstract path, site) pair; distinct = distinct rule@construct keys",
 		Floors: []Floor{{"C09.R1@batch|*:item-exec", 1, "stop mode, sequential"}, {"C09.R2@batch|*:item-exec", 1, "flag read before exec"}, {"C09.R2@batch|*:task-exit", 1, "flag set / mutex released at task exit"}, {"C09.R2@batch|*:stop-flag-read", 1, "flag read under mutex"},
-			{"C09.R2@batch|*:stop-flag-write", 1, "flag write under mutex"}, {"C09.R3@batch|*:post", 1, "slot coverage"}, {"C09.R4@batch|*:post", 1, "slot provenance"}},
+			{"C09.R2@batch|*:stop-flag-write", 1, "flag write under mutex"}, {"C09.R3@batch|*:post", 1, "slot coverage"}, {"C09.R4@batch|*:post", 1, "slot provenance"}, {"C09.R5@*WithBatchErrorHandling:single-field", 3, "the mode setters write the mode"}, {"C09.R6@WorkerPool.Submit:return", 1, "tasks enter the queue in submission order"}},
 		Assumptions: commonAssumptions})
 	reg(&Prop{ID: "C11", Units: []string{"run"}, Technique: "static analysis: path-sensitive context-observation typestate + slot coverage over go/ssa (batch paths)",
 		Explanation: batchExpl + " C11 decides: (R1) every per-item exec attempt is preceded, since the previous user callback or the start of the iteration/task, by a context observation taking the not-cancelled edge; (R2) the per-item retry wait selects on ctx.Done(); (R3) on every path each slot of an item that was not executed holds an error result at post (coverage as in C09); (R4) the item phase terminates: the mutex is released on every task path and Wait follows the last Submit before post. Wall-clock promptness is not decided.",
@@ -133,23 +133,23 @@ func init() {
 		Assumptions: append(append([]string{}, commonAssumptions...), "which worker holds which item at the instant of cancellation is a schedule question; the structural cause (the observation is made by each task before executing) is what is decided")})
 	flowExpl := "Path-sensitive abstract interpretation of (*Flow).Exec with the static call Run(ctx, current, shared) cut into an opaque ChildRun event (Run itself is verified for arbitrary nodes by C01/C02/C04/C05, so induction over nesting applies); the node argument is aliased after each event, which makes the per-step routing rule expressible with finitely many terms and covers cycles, self-loops and repeated runs. Connect, NewFlow, Flow.Prep/Post/Run are explored as separate roots."
 	reg(&Prop{ID: "C03", Units: []string{"flow"}, Technique: "static analysis: path-sensitive routing-provenance abstract interpretation + map-effect analysis over go/ssa",
-		Explanation: flowExpl + " C03 decides: the first node run is the flow's start field; each further node run is exactly transitions[previous node][its action]; every undecided branch between two child runs depends only on the child's error, the context, and the presence/nil-ness of that two-level lookup; success is returned only when the lookup is known absent or nil; no other call touches nodes; running a flow has no heap effect; Connect stores `to` under (from, action) exactly once on every path, creates the inner table only when absent, deletes nothing and returns its receiver; NewFlow stores its argument and a fresh table.",
+		Explanation: flowExpl + " C03 decides: the first node run is the flow's start field; each further node run is exactly transitions[previous node][its action]; every undecided branch between two child runs depends only on the child's error, the context, and the presence/nil-ness of that two-level lookup; success is returned only when the lookup is known absent or nil; no other call touches nodes; running a flow has no heap effect; Connect stores `to` under (from, action) exactly once on every path, creates the inner table only when absent, deletes nothing and returns its receiver; NewFlow stores its argument and a fresh table; the flow's own prep always hands the store on with a nil error (R8), and neither it nor post keeps state (atomics count as state), so a repeated run starts exactly like the first.",
 		CaseRule:    "an obligation instance is one (abstract path, site) pair; distinct = distinct rule@construct keys",
 		Floors: []Floor{{"C03.R1@*:child-run", 1, "first node"}, {"C03.R2@*:child-run", 1, "routing step"}, {"C03.R3@*:routing-decision", 1, "routing decisions"}, {"C03.R3@*:success-return", 1, "termination condition"},
-			{"C03.R5@*:transition-store", 1, "Connect stores"}, {"C03.R5@*:inner-map-creation", 1, "Connect creates inner table"}, {"C03.R5@*:return", 1, "Connect returns"}, {"C03.R6@*:effect", 4, "effect freedom of Exec/Prep/Post/Run"}, {"C03.R7@NewFlow:*", 2, "NewFlow"}},
+			{"C03.R5@*:transition-store", 1, "Connect stores"}, {"C03.R5@*:inner-map-creation", 1, "Connect creates inner table"}, {"C03.R5@*:return", 1, "Connect returns"}, {"C03.R6@*:effect", 4, "effect freedom of Exec/Prep/Post/Run"}, {"C03.R7@NewFlow:*", 2, "NewFlow"}, {"C03.R8@Flow.Prep:return", 1, "entering a flow cannot fail or depend on earlier runs"}},
 		Assumptions: append(append([]string{}, commonAssumptions...), "Go map semantics; nodes of unhashable dynamic type panic at Connect (outside the statement)")})
 	reg(&Prop{ID: "C10", Units: []string{"flow"}, Technique: "static analysis: path-sensitive value-provenance abstract interpretation over go/ssa",
-		Explanation: flowExpl + " C10 decides: Flow.Prep returns its store parameter; every child run receives the store asserted from Flow.Exec's prep value and the flow's context; the success value of Flow.Exec is the last child run's action boxed as Action; Flow.Post returns exactly that action; Flow.Run runs the flow through Run with the caller's context/store and returns its error; no function statically reachable from Run asserts a node to *Flow; NewFlow embeds a BaseNode with the defaults (one attempt, no wait). Together with C01/C03/C04 this is the flattening argument by induction on nesting depth.",
+		Explanation: flowExpl + " C10 decides: Flow.Prep returns its store parameter; every child run receives the store asserted from Flow.Exec's prep value and the flow's context; the success value of Flow.Exec is the last child run's action boxed as Action; Flow.Post returns exactly that action; Flow.Run runs the flow through Run with the caller's context/store and returns its error; no function statically reachable from Run asserts a node to *Flow; NewFlow embeds a BaseNode with the defaults (one attempt, no wait) and keeps its argument itself as start node with a fresh table (R8: a flow passed in is not looked into). Together with C01/C03/C04 this is the flattening argument by induction on nesting depth.",
 		CaseRule:    "an obligation instance is one (abstract path, site) pair; distinct = distinct rule@construct keys",
 		Floors: []Floor{{"C10.R1@Flow.Prep:return", 1, "prep hands the store through"}, {"C10.R2@*:child-run", 1, "children run on the parent's store"}, {"C10.R3@*:success-return", 1, "last action"}, {"C10.R4@Flow.Post:return", 1, "post returns the action"},
-			{"C10.R5@Run:type-tests", 1, "no special-casing"}, {"C10.R6@NewFlow:base-node", 1, "default budget"}, {"C10.R7@Flow.Run:*", 2, "Flow.Run"}},
+			{"C10.R5@Run:type-tests", 1, "no special-casing"}, {"C10.R6@NewFlow:base-node", 1, "default budget"}, {"C10.R7@Flow.Run:*", 2, "Flow.Run"}, {"C10.R8@NewFlow:*", 2, "a flow given as start node is kept as that node"}},
 		Assumptions: commonAssumptions})
 	storeExpl := "Every exported method of *SharedStore is explored path-sensitively (callees such as Get inlined) with lock/unlock, field reads, map lookups/updates/deletes/len/range/clear, appends and returns as events."
 	reg(&Prop{ID: "C13", Units: []string{"store"}, Technique: "static analysis: path-sensitive lockset / critical-section typestate over go/ssa",
-		Explanation: storeExpl + " C13 decides a sufficient condition for linearizability and race freedom: on every path of every method, each access to the map field or to the map it holds happens while the store's own mutex is held (write-locked for any mutation), at most one critical section is entered per operation (callees included, so composite getters stay atomic), lock and unlock are balanced on every path with no nested acquisition, no store method is called while the lock is held, and the internal map never escapes (not returned, stored, or passed to anything but pure copy helpers). Merge and Clear therefore perform their whole update inside one write section.",
+		Explanation: storeExpl + " C13 decides a sufficient condition for linearizability and race freedom: on every path of every method, each access to the map field or to the map it holds happens while the store's own mutex is held (write-locked for any mutation), at most one critical section is entered per operation (callees included, so composite getters stay atomic), lock and unlock are balanced on every path with no nested acquisition, no store method is called while the lock is held, and the internal map never escapes (not returned, stored, or passed to anything but pure copy helpers). Merge and Clear therefore perform their whole update inside one write section. The second half of linearizability - what each atomic section answers equals what the plain map answers - is the per-method effect summary of C14.R1, counted here as C13.R7.",
 		CaseRule:    "an obligation instance is one (abstract path, event) pair in one method; distinct = distinct rule@construct keys",
-		Floors:      []Floor{{"C13.R1@SharedStore.*:access", 9, "guarded accesses in the nine map operations"}, {"C13.R2@SharedStore.*:lock", 9, "one section per operation"}, {"C13.R3@SharedStore.*:return", 20, "balanced on return, every method"}, {"C13.R6@SharedStore.*:classified", 20, "every exported method analysed"}},
-		Assumptions: append(append([]string{}, commonAssumptions...), "sequential correctness of each operation is C14; races on user values stored in the store are outside the property")})
+		Floors:      []Floor{{"C13.R1@SharedStore.*:access", 9, "guarded accesses in the nine map operations"}, {"C13.R2@SharedStore.*:lock", 9, "one section per operation"}, {"C13.R3@SharedStore.*:return", 20, "balanced on return, every method"}, {"C13.R6@SharedStore.*:classified", 20, "every exported method analysed"}, {"C13.R7@SharedStore.*:effect-summary", 9, "each atomic section answers as the plain map would"}},
+		Assumptions: append(append([]string{}, commonAssumptions...), "races on user values stored in the store are outside the property")})
 	reg(&Prop{ID: "C14", Units: []string{"store"}, Technique: "static analysis: per-method map-effect summaries compared with a specification table",
 		Explanation: storeExpl + " C14 decides: the map-effect summary of each direct method equals the map operation it stands for (Set: one store of (key,value); Get: both results of one lookup; Has: the presence bit, not a nil test; Delete: one delete of key; Len: len; Clear: one replace-by-fresh-map or clear; Merge: nil does nothing, otherwise every entry of the argument is copied unconditionally inside the range loop which runs to exhaustion; Keys/GetAll: no mutation, a container made in the call receives every key/entry exactly once per iteration); every store to the map field stores a map made in the call; the internal map never escapes; NewSharedStore starts with a fresh map. By induction over operation sequences the store equals the model map.",
 		CaseRule:    "an obligation instance is one abstract path of one method; distinct = distinct rule@construct keys",
@@ -163,29 +163,29 @@ func init() {
 			{"C12.R3@WorkerPool.Submit.wrapper:done", 1, "Done on the pool's WaitGroup"}, {"C12.R4@WorkerPool.worker:return", 1, "worker exits on close/done"}, {"C12.R5@WorkerPool.Wait:*", 2, "Wait"}, {"C12.R6@WorkerPool.Close:*", 3, "Close"}, {"C12.R7@package:*", 1, "who may touch"}},
 		Assumptions: append(append([]string{}, commonAssumptions...), "visibility of task effects after Wait is the WaitGroup happens-before contract; Submit after Close is outside the property")})
 	reg(&Prop{ID: "C08", Units: []string{"pool", "run", "config"}, Technique: "static analysis: trip-count analysis of the spawn loop + path-sensitive typestate of worker and batch dispatch",
-		Explanation: poolExpl + " " + batchExpl + " C08 decides: the only go statement of the package is in the pool constructor and starts the worker method on the new pool; its loop runs exactly max(1, workers) times (scalar-evolution arithmetic plus bound provenance: `workers` under workers>0, the constant 1 otherwise), one start per iteration; the worker's only blocking point is the receive on the pool's channels and it runs each received task synchronously, once, with no goroutine of its own; only pool functions send/receive on task channels; on the batch paths the pool is sized by the configured concurrency read from the node being run, items are executed only inside submitted tasks when concurrency>0 and only by the in-order sequential loop (index 0, step 1) when concurrency<=0. Hence at most c executions in flight and exactly c independent workers.",
+		Explanation: poolExpl + " " + batchExpl + " C08 decides: the only go statement of the package is in the pool constructor and starts the worker method on the new pool; its loop runs exactly max(1, workers) times (scalar-evolution arithmetic plus bound provenance: `workers` under workers>0, the constant 1 otherwise), one start per iteration; the worker's only blocking point is the receive on the pool's channels and it runs each received task synchronously, once, with no goroutine of its own; only pool functions send/receive on task channels; on the batch paths the pool is sized by the configured concurrency read from the node being run, items are executed only inside submitted tasks when concurrency>0 and only by the in-order sequential loop (index 0, step 1) when concurrency<=0. Hence at most c executions in flight and exactly c independent workers. (R7) every form of the concurrency setter stores its argument unchanged in the field GetBatchConcurrency returns.",
 		CaseRule:    "an obligation instance is one (abstract path, event) pair or one static loop/package scan; distinct = distinct rule@construct keys",
 		Floors: []Floor{{"C08.R1@package:go-statements", 1, "single go statement"}, {"C08.R1@NewWorkerPool:spawn", 1, "worker start"}, {"C08.R1@NewWorkerPool:spawn-loop-count", 1, "spawn loop arithmetic"}, {"C08.R1@NewWorkerPool:spawn-bound", 1, "bound provenance (workers>0 and workers<=0)"},
 			{"C08.R2@WorkerPool.worker:task-call", 1, "synchronous single call"}, {"C08.R2@WorkerPool.worker:receive", 1, "blocking receive"}, {"C08.R3@package:pool-field-access", 1, "channel ownership"},
-			{"C08.R4@batch|*:pool-size", 1, "pool sized by configuration"}, {"C08.R4@batch|*:item-exec", 1, "exec inside tasks"}, {"C08.R5@batch|*:item-exec", 1, "sequential dispatch"}, {"C08.R6@batch|*:config-read", 1, "configuration read from the node"}},
+			{"C08.R4@batch|*:pool-size", 1, "pool sized by configuration"}, {"C08.R4@batch|*:item-exec", 1, "exec inside tasks"}, {"C08.R5@batch|*:item-exec", 1, "sequential dispatch"}, {"C08.R6@batch|*:config-read", 1, "configuration read from the node"}, {"C08.R7@*WithBatchConcurrency:stores-argument", 3, "every form of the concurrency setter stores its argument"}},
 		Assumptions: append(append([]string{}, commonAssumptions...), "that the Go scheduler actually runs the c workers in parallel and that blocked user tasks make progress is not decided")})
 	reg(&Prop{ID: "C15", Units: []string{"access"}, Technique: "static analysis: may-panic instruction scan + path-sensitive reflect-precondition check + decision-table extraction compared with the documented table",
-		Explanation: "Every typed accessor of Result and SharedStore (plain, Or, Must, Get, GetOr forms of String/Int/Float64/Bool/Slice/Map), ToSlice, As and the small Result helpers are analysed. (R1) totality: no reachable instruction of a non-Must accessor can panic - no unchecked type assertion, no ==/!= between two interface values, no unguarded index, no explicit panic - and every reflect call's precondition (frozen table) is implied by the path facts. (R2-R5) the accessor is explored path-sensitively with Get/ToSlice summarised as deterministic calls; for every case of the documented decision table (key absent, nil, each of the 12 numeric kinds, string, bool, []any, map[string]any, other slice kinds, other types incl. uintptr/complex) the paths consistent with that case must succeed/fail as documented and return Go's conversion of the asserted value (or the default/zero/panic of the variant); paths outside the table are violations. Store and result accessors are checked against the same table, so they agree. (R6) ToSlice: nil to empty non-nil slice, []any to itself, every other slice to an index-preserving complete copy, anything else to a one-element slice.",
+		Explanation: "Every typed accessor of Result and SharedStore (plain, Or, Must, Get, GetOr forms of String/Int/Float64/Bool/Slice/Map), ToSlice, As and the small Result helpers are analysed. (R1) totality: no reachable instruction of a non-Must accessor can panic - no unchecked type assertion, no ==/!= between two interface values, no unguarded index, no explicit panic - and every reflect call's precondition (frozen table) is implied by the path facts. (R2-R5) the accessor is explored path-sensitively with Get/ToSlice summarised as deterministic calls; for every case of the documented decision table (key absent, nil, each of the 12 numeric kinds, string, bool, []any, map[string]any, other slice kinds, other types incl. uintptr/complex) the paths consistent with that case must succeed/fail as documented and return Go's conversion of the asserted value (or the default/zero/panic of the variant); paths outside the table are violations. Store and result accessors are checked against the same table, so they agree. (R6) ToSlice: nil to empty non-nil slice, []any to itself, every other slice to an index-preserving complete copy, anything else to a one-element slice. (R8) NewResult / R / NewErrorResult store exactly their argument (no flattening or conversion of any dynamic type), so \"the value\" the accessors describe is the value the caller passed.",
 		CaseRule:    "an obligation instance is one (accessor, table case, abstract path) triple or one static scan; distinct = distinct rule@construct keys",
 		Floors: []Floor{{"C15.R1@*:may-panic", 30, "may-panic scan of every accessor"}, {"C15.R4@*:table", 30, "decision tables of all accessors"}, {"C15.R3@SharedStore.*:table", 12, "store accessors"}, {"C15.R5@*Slice*:table", 5, "slice family"},
-			{"C15.R6@ToSlice:*", 4, "ToSlice cases"}, {"C15.R1@ToSlice:*", 4, "ToSlice reflect preconditions"}},
+			{"C15.R6@ToSlice:*", 4, "ToSlice cases"}, {"C15.R1@ToSlice:*", 4, "ToSlice reflect preconditions"}, {"C15.R8@*:constructor", 3, "constructors hold exactly their argument"}},
 		Assumptions: append(append([]string{}, commonAssumptions...), "numeric results of Go's own conversions are the specification; reflect and type-switch semantics are trusted")})
 	reg(&Prop{ID: "C16", Units: []string{"bind"}, Technique: "static analysis: may-panic scan + path-sensitive reflect-precondition and Marshal->Unmarshal provenance check + sibling outcome comparison",
-		Explanation: "Both Bind implementations are explored path-sensitively (Get summarised as a deterministic call, reflect and json.Marshal as deterministic functions of their arguments). (R1) no instruction can panic and every reflect call's precondition (Kind()==Ptr before IsNil/Elem/Type().Elem(), non-nil and identical types before Set) is implied by the path facts. (R2) json.Marshal is applied to the bound value; json.Unmarshal receives exactly Marshal's bytes and the caller's destination, only after Marshal is known to have succeeded; success is returned only after the identity copy or a successful decode; marshal/unmarshal errors are returned wrapped. (R3) a missing key, a nil result value, a nil or non-pointer destination end in an error return before any binding. (R4) Bind has no write effect other than through the destination. (R5) the identity copy is taken exactly under TypeOf(value) == element type of dest and sets *dest to the value; the JSON path only when the types are known to differ; both Binds have the same set of outcome classes.",
+		Explanation: "Both Bind implementations are explored path-sensitively (Get summarised as a deterministic call, reflect and json.Marshal as deterministic functions of their arguments). (R1) no instruction can panic and every reflect call's precondition (Kind()==Ptr before IsNil/Elem/Type().Elem(), non-nil and identical types before Set) is implied by the path facts. (R2) json.Marshal is applied to the bound value; json.Unmarshal receives exactly Marshal's bytes and the caller's destination, only after Marshal is known to have succeeded; success is returned only after the identity copy or a successful decode; marshal/unmarshal errors are returned wrapped. (R3) a missing key, a nil result value, a nil or non-pointer destination end in an error return before any binding. (R4) Bind has no write effect other than through the destination. (R5) the identity copy is taken exactly under TypeOf(value) == element type of dest and sets *dest to the value; the JSON path only when the types are known to differ; both Binds have the same set of outcome classes. (R6) the value a Result binds is exactly the argument of its constructor (NewResult / R / NewErrorResult are explored: no unwrapping of any dynamic type).",
 		CaseRule:    "an obligation instance is one (abstract path, event) pair in one Bind; distinct = distinct rule@construct keys",
 		Floors: []Floor{{"C16.R1@*.Bind:may-panic", 2, "may-panic scan of both Binds"}, {"C16.R1@*.Bind:(reflect.Value).Set", 2, "Set preconditions"}, {"C16.R1@*.Bind:(reflect.Value).IsNil", 2, "IsNil preconditions"}, {"C16.R2@*.Bind:unmarshal", 2, "Marshal->Unmarshal provenance"},
-			{"C16.R2@*.Bind:success-return", 2, "success only after binding"}, {"C16.R2@*.Bind:error-return", 2, "json errors returned"}, {"C16.R3@*.Bind:invalid-input-return", 2, "invalid inputs"}, {"C16.R5@*.Bind:fast-path", 2, "identity copy condition"}, {"C16.R5@Bind:siblings", 1, "sibling agreement"}},
+			{"C16.R2@*.Bind:success-return", 2, "success only after binding"}, {"C16.R2@*.Bind:error-return", 2, "json errors returned"}, {"C16.R3@*.Bind:invalid-input-return", 2, "invalid inputs"}, {"C16.R5@*.Bind:fast-path", 2, "identity copy condition"}, {"C16.R5@Bind:siblings", 1, "sibling agreement"}, {"C16.R6@*:constructor", 3, "the bound value is the constructor's argument"}},
 		Assumptions: append(append([]string{}, commonAssumptions...), "encoding/json is the reference for the round trip (cyclic data, panicking MarshalJSON are outside)")})
 	reg(&Prop{ID: "C17", Units: []string{"adapters", "run"}, Technique: "static analysis: compositional symbolic exploration of adapter pairs (producer output substituted into the consumer) + wrapper summaries vs. specification",
-		Explanation: "The function-style node adapters are decided compositionally. For each producer (CustomNode.Prep / Exec / ExecFallback) every success path is explored and its output term recorded together with the facts about the Result its user function returned; each consumer (CustomNode.Exec / Post) is then explored with that output bound to its parameter and those facts (plus A5: payloads are not themselves Results) preloaded, and the Result its user function receives is compared with what the previous function returned: identical for an error Result from exec (never re-wrapped, never stripped), otherwise a Result whose value is exactly the returned value. A batch item (already a Result) must reach the exec function unwrapped. On the batch paths of Run a result slot may receive a freshly wrapped exec outcome only on a path where the outcome is known not to be a Result already (C17.R1 at batch post). The Any-style wrappers of all three construction forms (option, NodeBuilder method, BatchNodeBuilder method) are located as closures stored into the function fields and checked against one specification (arguments: context/store unchanged, Value() of each Result; results: the user's value wrapped exactly once, the user's error itself), which also makes the forms interchangeable.",
+		Explanation: "The function-style node adapters are decided compositionally. For each producer (CustomNode.Prep / Exec / ExecFallback) every success path is explored and its output term recorded together with the facts about the Result its user function returned; each consumer (CustomNode.Exec / Post) is then explored with that output bound to its parameter and those facts (plus A5: payloads are not themselves Results) preloaded, and the Result its user function receives is compared with what the previous function returned: identical for an error Result from exec (never re-wrapped, never stripped), otherwise a Result whose value is exactly the returned value. A batch item (already a Result) must reach the exec function unwrapped. On the batch paths of Run a result slot may receive a freshly wrapped exec outcome only on a path where the outcome is known not to be a Result already (C17.R1 at batch post). The Any-style wrappers of all three construction forms (option, NodeBuilder method, BatchNodeBuilder method) are located as closures stored into the function fields and checked against one specification (arguments: context/store unchanged, Value() of each Result; results: the user's value wrapped exactly once, the user's error itself), which also makes the forms interchangeable. The phase methods of NodeBuilder / BatchNodeBuilder / BatchNode that delegate to the embedded node return that node's results as the very same terms (C17.R5: no unwrapping, no re-wrapping on the way out).",
 		CaseRule:    "an obligation instance is one (producer path, consumer path, call) triple or one wrapper path; distinct = distinct rule@construct keys",
 		Floors: []Floor{{"C17.R1@prep->exec", 1, "prep value reaches exec"}, {"C17.R1@prep->post", 1, "prep value reaches post"}, {"C17.R1@exec->post", 1, "exec value and error result reach post"}, {"C17.R2@exec->post", 1, "error state preserved"}, {"C17.R2@CustomNode.Exec:producer", 1, "exec distinguishes error results"}, {"C17.R1@fallback->post", 1, "fallback value reaches post"},
-			{"C17.R1@item->exec", 1, "batch items unwrapped"}, {"C17.R1@batch|*:post", 1, "batch result slots: exec outcomes wrapped only when they are not Results"}, {"C17.R3@*:wrapper", 7, "seven Any-style wrappers"}},
+			{"C17.R1@item->exec", 1, "batch items unwrapped"}, {"C17.R1@batch|*:post", 1, "batch result slots: exec outcomes wrapped only when they are not Results"}, {"C17.R3@*:wrapper", 7, "seven Any-style wrappers"}, {"C17.R5@*:transparent", 6, "builder phase methods return the embedded node's results unchanged"}},
 		Assumptions: append(append([]string{}, commonAssumptions...), "A5: user payloads are not themselves flyt.Result values except where the framework produces them (batch items, error results)")})
 	reg(&Prop{ID: "C19", Units: []string{"config", "pool", "run"}, Technique: "static analysis: setter effect summaries compared across construction forms + constructor option-dispatch/apply-loop typestate + default/getter summaries",
 		Explanation: "Every setting has one effect summary (field written := function of the argument, per path condition on the argument), extracted by exploring the option's setter closure and the NodeBuilder / BatchNodeBuilder methods of the same name; forms with the same parameter type must have equal summaries, each path writes exactly one field, builder methods return their receiver. The constructors NewBaseNode / NewNode / NewBatchNode are explored with a monitor for the classification loop (each argument visited in ascending order and collected once under its established type) and the application loops (each collected list applied element by element, once, in ascending order, every collected list applied); the option kinds NewNode and NewBatchNode accept must coincide; base options and function options write disjoint fields. Defaults: a node built from no options has (1 attempt, 0 wait, concurrency 0, mode unset, no functions); getters return their field, the unset mode reads as continue; the mode setters store exactly the strings continue/stop; a pool size <= 0 becomes 1 (C08.R1); behaviour reads the configuration through the getters of the node being run (C02.R1, C08.R4/R6).",
